@@ -4,7 +4,7 @@
     on the implementation by the executable specification C02.Model.spec in the tie; the theorems
     below are the facts that specification rests on (see DESIGN.md C02 for what stays partial). *)
 From Coq Require Import List NArith Bool.
-From SL Require Import Base.Tie Base.Bytes Base.Crc32 Wal.Model Wal.Theorems Core.Model C02.Model C02.Proofs.
+From SL Require Import Base.Tie Base.Bytes Base.Crc32 Wal.Model Wal.Theorems Core.Model C01.Model C01.Proofs C02.Model C02.Proofs C02.Windows.
 Import ListNotations.
 Open Scope N_scope.
 
@@ -58,6 +58,25 @@ Proof. exact entry_durable_from_open. Qed.
 Theorem C02_reapply_harmless : forall q r c id,
   alookup id (apply_all (q ++ r) (apply_all q c)) = alookup id (apply_all r (apply_all q c)).
 Proof. exact reapply_harmless. Qed.
+
+(** The commit protocol seen jointly on the manifest side (C01's crash-aware disk) and on the log:
+    from any consistent disk with a durable log entry and an unsynced tail of operations, at
+    EVERY operation boundary of the commit, every combination of what a crash can leave of the
+    index and of the log is: the old contents with a recovered queue between the synced queue and
+    the whole batch, or the new contents with an empty queue or exactly the whole batch (whose
+    re-application is harmless) - never old contents with a lost batch, never a half batch. *)
+Theorem C02_commit_windows :
+  forall (d : disk) (w : wal_st) (m0 m1 : manifest) (segops : list sop) (tail : list wrec),
+  k_man d = (m0, true) -> k_manp d = None -> safe_all d m0 ->
+  Forall (fun o => (exists n, o = OSegBegin n) \/ (exists n, o = OSegSynced n)) segops ->
+  ready_all (run_sops d segops) m1 ->
+  w_entry w = true -> w_exists w = true -> w_vol w = w_dur w ++ tail -> forallb is_op tail = true ->
+  forall (j : nat) c x,
+    In c (outcomes (fst (jrun (d, w) (firstn j (commit_ops m1 segops))))) ->
+    In x (wal_crash (snd (jrun (d, w) (firstn j (commit_ops m1 segops))))) ->
+    (c = Some (contents m0) /\ exists p s, ops_of tail = p ++ s /\ C02.Model.pending x = C02.Model.pending (w_dur w) ++ p) \/
+    (c = Some (contents m1) /\ (C02.Model.pending x = [] \/ C02.Model.pending x = C02.Model.pending (w_dur w) ++ ops_of tail)).
+Proof. exact commit_windows. Qed.
 
 (** The unrepaired open (directory entry of a new log never fsynced) loses synced operations. *)
 Theorem C02_unfixed_entry_refuted :
